@@ -52,7 +52,7 @@ pub fn run_main(modules: &'static [(ExecFn, GenFn)]) {
         }
         Some("exec") => {
             let oracle_path = args.iter().position(|a| a == "--oracle").map(|i| args[i + 1].clone());
-            std::panic::set_hook(Box::new(|_| {}));
+            if std::env::var_os("VERIF_PANIC_LOC").is_some() { std::panic::set_hook(Box::new(|i| eprintln!("panic at {:?}", i.location()))); } else { std::panic::set_hook(Box::new(|_| {})); }
             let child = std::thread::Builder::new().stack_size(512 << 20).spawn(move || {
                 let stdin = std::io::stdin();
                 let so = std::io::stdout();
